@@ -13,7 +13,38 @@ use crate::rec::*;
 use crate::spec::{self, gs};
 use crate::util::*;
 
-pub const ORACLES: &[(&str, Oracle)] = &[("start_end", o_start_end)];
+pub const ORACLES: &[(&str, Oracle)] = &[("start_end", o_start_end), ("start_end_options", o_start_end_options)];
+
+/// Game Start and Game End of a replay WITH frames, under every option combination: the same blocks and
+/// the same decoded values as the plain read (whose values the block-level oracle ties to the spec offsets).
+pub fn o_start_end_options(input: &[u8], p: &P) -> Out {
+	let rg = crate::common::domain(input, "C05");
+	let mut out = crate::common::out_from(&rg);
+	out.nontrivial = true;
+	let r = catch(|| -> Result<u64, (String, String)> {
+		let e = |k: &str, m: String| (k.to_string(), m);
+		let base = read_slp(input, false, false).map_err(|f| e(&format!("read-failed:{}", f.key()), f.describe()))?;
+		if base.start.bytes.0 != rg.start_block {
+			return Err(e("start-bytes", "start.bytes differs from the raw Game Start block".into()));
+		}
+		if base.end.as_ref().map(|x| &x.bytes.0) != rg.end_block.as_ref() {
+			return Err(e("end-bytes", "end.bytes differs from the raw Game End block (or presence differs)".into()));
+		}
+		for (skip, hash) in [(false, true), (true, false), (true, true)] {
+			if skip && !(rg.n_ends == 1 && rg.junk_after_end == 0) {
+				continue;
+			}
+			let g = read_slp(input, skip, hash).map_err(|f| e(&format!("read-failed-with-options:{}", f.key()), format!("reading with skip_frames={} compute_hash={} failed: {}", skip, hash, f.describe())))?;
+			start_eq(&base.start, &g.start, true).map_err(|m| e("start-differs", format!("Game Start read with skip_frames={} compute_hash={} differs: {}", skip, hash, m)))?;
+			if g.end != base.end {
+				return Err(e("end-differs", format!("Game End read with skip_frames={} compute_hash={} differs", skip, hash)));
+			}
+		}
+		Ok(xx(&rg.start_block))
+	});
+	finish_out(&mut out, "start_end_options", p, r);
+	out
+}
 
 #[derive(Debug, Clone, PartialEq)]
 pub struct RPlayer {
@@ -557,7 +588,7 @@ fn file_with(start: &[u8], end: &[u8]) -> Vec<u8> {
 
 pub fn run() {
 	let cx = ctx();
-	cx.note("rule", json!("per Game Start length class (320/352/416/417/418/420/584/700/701/760 bytes): (a) all 5^4 type-byte patterns {0,1,2,3,0x80} x teams {0,1} with ICs on varying ports; (b) EVERY byte offset of the block x all 256 values, one byte at a time (occupied human / CPU / demo ports and an unoccupied one); (c) NUL at every position (and none) of name tag, display name, connect code, UID, match id. Per Game End length class (1, 2, 6 bytes): every byte x 256 values, and the full product methods {0,1,2,3,7,4} x LRAS {255,0,1,2,3,4} x 6^4 placements over {-1,0,1,2,3,4}. Read through a zero-frame replay (both with and without skip_frames). Oracle: independent decode by SPEC offsets: every exposed field, optional fields present iff the block is long enough, players = ports with type 0..2 in port order, cpu_level only for CPU, team only with teams on, raw bytes retained, serde_json rendering equal to the reference JSON; values without representation must give Err (for unoccupied ports Err or ignore). Every case is non-trivial (distinct block)"));
+	cx.note("rule", json!("all 784 versions with a 2-frame replay read under every option combination (skip_frames x compute_hash): same blocks, same start and end as the plain read; per Game Start length class (320/352/416/417/418/420/584/700/701/760 bytes): (a) all 5^4 type-byte patterns {0,1,2,3,0x80} x teams {0,1} with ICs on varying ports; (b) EVERY byte offset of the block x all 256 values, one byte at a time (occupied human / CPU / demo ports and an unoccupied one); (c) NUL at every position (and none) of name tag, display name, connect code, UID, match id. Per Game End length class (1, 2, 6 bytes): every byte x 256 values, and the full product methods {0,1,2,3,7,4} x LRAS {255,0,1,2,3,4} x 6^4 placements over {-1,0,1,2,3,4}. Read through a zero-frame replay (both with and without skip_frames). Oracle: independent decode by SPEC offsets: every exposed field, optional fields present iff the block is long enough, players = ports with type 0..2 in port order, cpu_level only for CPU, team only with teams on, raw bytes retained, serde_json rendering equal to the reference JSON; values without representation must give Err (for unoccupied ports Err or ignore). Every case is non-trivial (distinct block)"));
 	cx.note("exhaustive", json!(true));
 	cx.note("assumptions", json!(["encoding_rs's Shift-JIS table is trusted (strings are decoded by the harness with the same table; C19 checks the slicing)", "a UID / match id without NUL terminator inside its field is an open zone (length of the result not compared)", "non-finite floats are compared as JSON null"]));
 	let mut jobs: Vec<(Vec<u8>, Vec<u8>, String, &'static str)> = vec![];
@@ -665,6 +696,16 @@ pub fn run() {
 			let p2 = P { skip: false, class, ..Default::default() };
 			eval_case("start_end", o_start_end, &bytes, &p2, || label, local);
 		}
+	});
+	// replays that do have frames, every version, every option combination
+	let mut with_frames = vec![];
+	for v in spec::v_all() {
+		with_frames.push(crate::gen::per_version_replay(v, Fill::B));
+	}
+	par_each(with_frames.into_iter(), |abs, local| {
+		let bytes = Arc::new(record(&abs).doc.assemble());
+		let p = P { class: "with-frames", ..Default::default() };
+		eval_case("start_end_options", o_start_end_options, &bytes, &p, || abs.describe(), local);
 	});
 	finish(cx);
 }
